@@ -30,7 +30,7 @@ func init() {
 	register(&Rule{ID: "R-NARROW", Floor: 6, Run: ruleNarrow,
 		Text: "Every conversion to uint16 that is written into a program is guarded by a range test on the converted value, or re-encodes an operand that was decoded from 16 bits."})
 	register(&Rule{ID: "R-PREPAREFRESH", Floor: 4, Run: rulePrepareFresh,
-		Text: "Prepare starts from empty compile outputs: every Eval field the compiler appends to or inserts into is reset before the compile call; and every failing return after that reset has cleared the machine of the previous program."})
+		Text: "Prepare starts from empty compile outputs: every Eval field the compiler appends to, inserts into, counts in or flags (slices, maps, counters, booleans) is put back to empty / zero before the compile call; and every failing return after that reset has cleared the machine of the previous program."})
 	register(&Rule{ID: "R-NOINJECT", Floor: 4, Run: ruleNoInject,
 		Text: "The library writes into the script's variable namespace only from VM opcode handlers and from SetVariable."})
 }
